@@ -4,7 +4,7 @@
 (* configuration plus notes: records                                       *)
 (*  [id, step, alter, octave, on, dur, next, prev, grace, gtype, voice,    *)
 (*   staff, rest]   (next / prev: index of the tied neighbour or 0;        *)
-(*   voice / staff 0 = not stated; rest = 1 for rests).                    *)
+(*   staff 0 = not stated; voice -1 (C05) or 0 = not stated; rest = 1).    *)
 (* One row per sounding note = head of a tie chain; grace notes are kept   *)
 (* with zero duration; every column is what the score states at the onset. *)
 (***************************************************************************)
@@ -22,7 +22,7 @@ Row(p, ns, k, mult, prefix, wantRest, qs, bs) ==
        mp == IF p.measures # {} /\ MeasureMapsDefined(p) /\ InsideSomeMeasure(p, n.on) THEN MetricalPos(p, n.on) ELSE <<-1, -1>>
    IN [id |-> prefix \o n.id, onset_div |-> n.on * mult, duration_div |-> d * mult,
        pitch |-> IF n.rest = 1 THEN 0 ELSE Midi(n.step, n.alter, n.octave),
-       voice |-> n.voice,        \* 0 = the score states no voice (the table may then hold any filler)
+       voice |-> n.voice,        \* -1 (0 where no check states voice 0) = the score states no voice (the table may then hold any filler)
        staff |-> n.staff, step |-> n.step, alter |-> n.alter, octave |-> n.octave,
        is_grace |-> n.grace, grace_type |-> n.gtype,
        onset_quarter |-> qs[n.on + 1], duration_quarter |-> RSub(qs[n.on + d + 1], qs[n.on + 1]),
